@@ -10,7 +10,7 @@ git checkout -q --detach main 2>/dev/null; git checkout -q -- . ; rm -f tests/se
 echo "worktree at $(git log --oneline | head -1)"
 if ! git apply --check $OUT/patch.diff 2>/dev/null; then echo "RESULT: patch does not apply to current main"; exit 0; fi
 git apply $OUT/patch.diff
-FAILS=$(cargo test --workspace --no-fail-fast --offline 2>&1 | grep -E "^test .* FAILED" | sed 's/ \.\.\. FAILED//; s/^test //' | sed 's/.*:://' | sort -u | tr '\n' ' ')
+FAILS=$(cargo test --workspace --no-fail-fast --offline 2>&1 | grep -E "^test .* \.\.\. FAILED" | sed 's/ \.\.\. FAILED//; s/^test //' | sed 's/.*:://' | sort -u | tr '\n' ' ')
 PASSED=$(cargo test --workspace --no-fail-fast --offline 2>&1 | grep -E "^test result" | sed 's/.* \([0-9]*\) passed.*/\1/' | paste -sd+ | bc)
 UNEXP=""
 for t in $FAILS; do case " $KNOWN " in *" $t "*) ;; *) UNEXP="$UNEXP $t";; esac; done
